@@ -31,6 +31,14 @@ supplied draws (`C17 sample`).  Streams:
                     at the current contents (Props/C17.lean: sample_stateless, history_mu_eq say that this is what the
                     history model `runHistory` returns).  At the end of each history 2000 real draws are checked against
                     N(coef_, cov) of the latest fit (stale state in the coefficient stage).
+                    Calls with several bootstraps are history steps too (every history has one; four forced histories per
+                    run are on the generic GAM(distribution=normal | gamma | inv_gauss, link=...) models with estimated
+                    scale, the classes whose `distribution` object is a user-facing parameter): each is framed by two
+                    identical single-bootstrap requests for responses.  The bootstrap refits happen on copies; the model is
+                    the fitted model it was, so (a) the later request is judged like every step — sampler arguments at the
+                    scale the model REPORTS (statistics_['scale'] read at the time of the call) — and (b) a request that
+                    repeats an earlier one (same quantity, contents, n_draws, seed; no refit in between) must return the
+                    same draws (patched generators: within the pipeline tolerance; real generators for the framed pairs).
 Generator-agnostic oracles (nothing assumed about which numpy.random entry point produces the coefficient draws):
   oracle.seeded-pipeline  under one seed, sample(mu | y) = g^-1(B(X) D^T)^T (resp. the documented sampler arguments at those
                     means) for D = what sample(coef) returns for a copy of the model under the same seed; every model
@@ -72,6 +80,29 @@ LABELS = ['LinearGAM', 'LinearGAM.known', 'LogisticGAM', 'PoissonGAM', 'GammaGAM
           'GAM/normal/log']
 MIXES = ['s0', 's0+l1', 's0+f2', 's0+s1by3', 'te01', 'l0+l1', 'cp0+f2d']
 FAMTOK = {'normal': 'normal', 'binomial': 'binomial', 'poisson': 'poisson', 'gamma': 'gamma', 'inv_gauss': 'inv_gauss'}
+# generic GAM(distribution=<name>, link=<name>) models with unknown scale that c09's table does not have (histories only):
+# (constructor, keywords, family, link, scale known?, label whose data generator is used)
+EXTRA_LABELS = {
+    'GAM/normal/identity': ('GAM', {'distribution': 'normal', 'link': 'identity'}, 'normal', 'identity', False, 'LinearGAM'),
+    'GAM/inv_gauss/log': ('GAM', {'distribution': 'inv_gauss', 'link': 'log'}, 'inv_gauss', 'log', False, 'InvGaussGAM'),
+}
+
+
+def label_spec(label):
+    """(constructor, keywords, family, link, scale known?) of a model label (c09's table + EXTRA_LABELS)"""
+    return base.LABELS[label] if label in base.LABELS else EXTRA_LABELS[label][:5]
+
+
+def fit_any(P, cfg):
+    """base.fit_model for every label of label_spec"""
+    if cfg['label'] in base.LABELS:
+        return base.fit_model(P, cfg)
+    ctor, kw, fam, link, known, data_label = EXTRA_LABELS[cfg['label']]
+    X, y, Xq = base.gen_data(dict(cfg, label=data_label))
+    terms = base.make_terms(P, cfg['mix'], cfg['lam'], cfg['ns'])
+    gam = getattr(P, ctor)(terms, fit_intercept=cfg['fit_intercept'], max_iter=200, tol=1e-6, **dict(kw))
+    gam.fit(X, y)
+    return gam, X, y, Xq
 
 
 # ------------------------------------------------------------------------------------------------
@@ -164,14 +195,18 @@ def quiet(f, *a, **k):
     sys.stdout.flush()
     sys.stderr.flush()
     saved = os.dup(2)
+    saved1 = os.dup(1)                       # LAPACK's xerbla writes its complaints to file descriptor 1
     devnull = os.open(os.devnull, os.O_WRONLY)
     try:
         os.dup2(devnull, 2)
+        os.dup2(devnull, 1)
         with contextlib.redirect_stdout(buf), contextlib.redirect_stderr(buf):
             return f(*a, **k)
     finally:
         os.dup2(saved, 2)
+        os.dup2(saved1, 1)
         os.close(saved)
+        os.close(saved1)
         os.close(devnull)
 
 
@@ -179,7 +214,7 @@ def quiet(f, *a, **k):
 # helpers
 # ------------------------------------------------------------------------------------------------
 def fit_info(gam, cfg):
-    ctor, kw, fam, link, known = base.LABELS[cfg['label']]
+    ctor, kw, fam, link, known = label_spec(cfg['label'])
     return dict(fam=fam, link=link, levels=float(gam.distribution.levels) if fam == 'binomial' else 1.0,
                 coef=np.asarray(gam.coef_, dtype=float).copy(), cov=np.asarray(gam.statistics_['cov'], dtype=float).copy(),
                 scale=float(gam.statistics_['scale']), m=len(gam.coef_))
@@ -762,7 +797,17 @@ def check_statistics(ctx, P, prepared):
         if R.size > 1000:
             n_ = R.size
             zm = abs(R.mean()) * math.sqrt(n_)
-            m4 = float(np.mean(R ** 4))
+            # variance of R^2 from the family's THEORETICAL fourth moment at each mean (the empirical one underestimates it
+            # badly when the mass sits in rare events: Bernoulli draws at p ~ 1e-6 in 4000 draws)
+            with np.errstate(all='ignore'):
+                Pm = (MU / lv)[okm] if fam == 'binomial' else None
+                kurt = {'normal': lambda: np.full(R.shape, 3.0),
+                        'binomial': lambda: 3.0 + (1 - 6 * Pm * (1 - Pm)) / (lv * Pm * (1 - Pm)),
+                        'poisson': lambda: 3.0 + 1.0 / MU[okm],
+                        'gamma': lambda: np.full(R.shape, 3.0 + 6.0 * phi),
+                        'inv_gauss': lambda: 3.0 + 15.0 * phi * MU[okm]}[fam]()
+            kurt = np.where(np.isfinite(kurt), kurt, 3.0)
+            m4 = float(max(np.mean(R ** 4), np.mean(kurt)))
             zv = abs(float(np.mean(R ** 2)) - 1) / math.sqrt(max(m4 - 1, 1e-3) / n_)
             ctx.count('response-z', 'mean<=%d' % math.ceil(zm))
             if zm > 7 or zv > 9:
@@ -1211,10 +1256,16 @@ def gen_history(ctx, h):
     """one history: a fitted model, three array objects (the training-shaped `X` that is also the query when
     sample_at_X is None, and two scenario buffers `A`, `B`) and 10-16 steps: sample(quantity, buffer) after a mutation of
     that buffer (none / a column or the rows overwritten in place / a new object with equal contents / a new object with new
-    contents), predict(buffer), refit (same data / rescaled feature 0, which moves the knots / new responses)"""
+    contents), predict(buffer), refit (same data / rescaled feature 0, which moves the knots / new responses), and
+    sample(..., n_bootstraps in {2, 3}) framed by two identical requests for responses (boot_triple)"""
     rng = ctx.subrng('history', h)
-    label = HIST_LABELS[h % len(HIST_LABELS)] if h < len(HIST_LABELS) else rng.choice(HIST_LABELS)
-    cfg = base.make_cfg(ctx.seed, 200000 + h, label, rng.choice(HIST_MIXES), ctx.tier)
+    forced = h >= BOOT_H0
+    if forced:
+        label = BOOT_LABELS[(h - BOOT_H0) % len(BOOT_LABELS)]
+    else:
+        label = HIST_LABELS[h % len(HIST_LABELS)] if h < len(HIST_LABELS) else rng.choice(HIST_LABELS)
+    # (the index also selects the response units of the identity-link normal models: drawn for the forced histories)
+    cfg = base.make_cfg(ctx.seed, 200000 + h if not forced else 210000 + 4 * (h - BOOT_H0) + rng.randrange(4), label, rng.choice(HIST_MIXES), ctx.tier)
     cfg['n'] = rng.choice([30, 45, 80])
     cfg['nq'] = rng.choice([4, 6, 9])
     steps = []
@@ -1231,7 +1282,31 @@ def gen_history(ctx, h):
     if not any(s_['op'] == 'refit' and s_['kind'] != 'same' for s_ in steps):
         # every history sees the fitted state change at least once, somewhere in the middle
         steps.insert(rng.randrange(len(steps) // 4, 3 * len(steps) // 4 + 1), dict(op='refit', kind=rng.choice(['rescale0', 'new-y'])))
+    # sample() calls with several bootstraps as history steps: every history has one (the forced histories of the generic
+    # GAM models two, the first before any refit), framed by two identical single-bootstrap requests for responses
+    # (same seed, same buffer, contents untouched in between)
+    for j in range(2 if forced else 1):
+        pos = rng.randrange(0, 2) if (forced and j == 0) else rng.randrange(0, len(steps) + 1)
+        steps[pos:pos] = boot_triple(rng)
     return dict(h=h, cfg=cfg, steps=steps)
+
+
+# forced histories (numbered from BOOT_H0): the generic GAM(distribution=..., link=...) models whose scale is estimated —
+# the classes for which `distribution` (an object that carries the scale) is a user-facing parameter of the estimator
+BOOT_H0 = 1000
+BOOT_LABELS = ['GAM/normal/identity', 'GAM/gamma/inverse', 'GAM/normal/log', 'GAM/inv_gauss/log']
+
+
+def boot_triple(rng):
+    """[sample(y, seed s), sample(any quantity, n_bootstraps in {2, 3}), sample(y, seed s) again]: the bootstrap call refits
+    copies of the model (grid search over lam on simulated responses, then a fit on the data); whatever those copies do,
+    the model itself is still the fitted model it was — the third call must return what the first returned"""
+    buf = rng.choice(['X', 'A', 'A', 'B'])
+    probe = dict(op='sample', quantity='y', buf=buf, mut=rng.choice(MUTATIONS), col=rng.choice([0, 1, 2, 3]), lvl=rng.randrange(16),
+                 n_draws=rng.choice([2, 3, 5]), seed=rng.randrange(2 ** 31), tag='probe')
+    boot = dict(op='sample-boot', quantity=rng.choice(['coef', 'mu', 'y']), buf=rng.choice(['X', 'A', 'B']), n_draws=rng.choice([2, 4, 7]),
+                n_bootstraps=rng.choice([2, 2, 2, 2, 3]), seed=rng.randrange(2 ** 31))
+    return [probe, boot, dict(probe, mut='keep', tag='echo')]
 
 
 def mutate(buf, step, src, rs):
@@ -1257,13 +1332,17 @@ def run_history(P, hc):
     import copy
     cfg = hc['cfg']
     try:
-        gam, X, y, Xq = quiet(base.fit_model, P, cfg)
+        gam, X, y, Xq = quiet(fit_any, P, cfg)
         info = fit_info(gam, cfg)
         twin = copy.deepcopy(gam)
     except Exception as e:                    # noqa: BLE001
         return dict(error=type(e).__name__, records=[])
+    epoch = 0             # number of (re)fits so far
+    asked = {}            # (quantity, buffer, n_draws, seed) -> the last single-bootstrap request with these arguments
+    between = []          # what was called since (for the report)
     rs = np.random.RandomState(common.random.Random('C17-hist-%d-%d' % (cfg['seed'], hc['h'])).randrange(2 ** 31))
     fitX, fity = X, y
+    curX = np.array(X, copy=True)      # the data of the latest fit (what the bootstrap refits of sample() are given)
     bufs = dict(X=np.array(X, copy=True), A=np.array(Xq, copy=True), B=np.array(Xq[::-1], copy=True))
     ycur = np.array(y, copy=True)
     records = []
@@ -1276,6 +1355,7 @@ def run_history(P, hc):
                 gam.predict(bufs[stp['buf']])
             except Exception:                 # noqa: BLE001
                 pass
+            between.append('k=%d predict' % k)
             continue
         if stp['op'] == 'refit':
             Xn, yn = np.array(fitX, copy=True), np.array(fity, copy=True)
@@ -1293,9 +1373,30 @@ def run_history(P, hc):
                 info = fit_info(gam, cfg)
                 twin = copy.deepcopy(gam)
                 ycur = np.array(yn, copy=True)
+                curX = np.array(Xn, copy=True)
+                epoch += 1
             except Exception as e:            # noqa: BLE001
                 records.append(dict(k=k, step=stp, skipped='refit raised ' + type(e).__name__))
                 break
+            continue
+        if stp['op'] == 'sample-boot':
+            # an ordinary call with several bootstraps, real generators, seeded; buffers untouched.  (X, y) are the data of
+            # the latest fit here — the bootstrap refits are fits to them — and never the (overwritten) buffer `X`
+            at = None if stp['buf'] == 'X' else bufs[stp['buf']]
+            rows = len(curX) if at is None else len(at)
+            want_shape = [stp['n_draws'], info['m'] if stp['quantity'] == 'coef' else rows]
+            np.random.seed(stp['seed'] % (2 ** 32))
+            try:
+                out = to_arr(quiet(gam.sample, np.array(curX, copy=True), ycur, quantity=stp['quantity'], n_draws=stp['n_draws'],
+                                   n_bootstraps=stp['n_bootstraps'], sample_at_X=at))
+                status = 'ok'
+            except Exception as e:            # noqa: BLE001
+                out, status = None, type(e).__name__
+            problems = []
+            if status == 'ok' and shape_of(out) != want_shape:
+                problems.append('n_bootstraps=%d: shape %s, expected %s' % (stp['n_bootstraps'], shape_of(out), want_shape))
+            records.append(dict(k=k, step=stp, boot=True, status=status, problems=problems, notes=[], out=out, want=None))
+            between.append('k=%d sample(%s, n_bootstraps=%d) -> %s' % (k, stp['quantity'], stp['n_bootstraps'], status))
             continue
         name = stp['buf']
         old = bufs[name]
@@ -1306,7 +1407,38 @@ def run_history(P, hc):
         bufs[name] = new
         sampled[name] = id(new)
         at = None if name == 'X' else new
+        # the scale of the response oracle is the one the model reports at the time of the call
+        notes0 = []
+        try:
+            now = float(gam.statistics_['scale'])
+        except Exception:                     # noqa: BLE001
+            now = info['scale']
+        if now != info['scale']:
+            notes0.append("statistics_['scale'] is %r, after the fit it was %r" % (now, info['scale']))
+            info = dict(info, scale=now)
         r = step_problems(info, twin, gam, stp['seed'], bufs['X'], ycur, stp['quantity'], stp['n_draws'], at)
+        r['notes'] = notes0 + r['notes']
+        # the same request as an earlier one, on the same fit and the same contents: the same generator results must give
+        # the same draws, whatever was called in between (exact: patched generators; real generators for the framed requests)
+        key = (stp['quantity'], name, stp['n_draws'], stp['seed'])
+        state = (epoch, np.array(bufs['X'], dtype=float).tobytes(), None if at is None else np.array(at, dtype=float).tobytes(), ycur.tobytes())
+        realy = real_call(gam, stp['seed'], bufs['X'], ycur, stp['quantity'], stp['n_draws'], at) if stp.get('tag') else None
+        prev = asked.get(key)
+        if prev is not None and prev['state'] == state and r['res'][0] == 'ok' and prev['out'] is not None and r['res'][1] is not None:
+            out_ = r['res'][1]
+            tol_ = 10 * np.asarray(r['tol']) if r['tol'] is not None and np.shape(r['tol']) in ((), np.shape(out_)) else 1e-12 * np.abs(out_)
+            calls = '; '.join(between[prev['pos']:]) or 'nothing'
+            if not close_arr(prev['out'], out_, tol_):
+                with np.errstate(all='ignore'):
+                    dmax = float(np.nanmax(np.abs(prev['out'] - out_))) if np.shape(prev['out']) == np.shape(out_) else float('nan')
+                r['problems'].append('the same request (quantity, contents, n_draws, seed) on the same fit returned other draws at step %d '
+                                     '(max abs difference %.3g); calls in between: %s' % (prev['k'], dmax, calls))
+            elif realy is not None and prev['real'] is not None and realy[0] == 'ok' and prev['real'][0] == 'ok' and \
+                    not close_arr(prev['real'][1], realy[1], 1e-9 * np.abs(realy[1])):
+                r['problems'].append('real generators, same seed: the same request on the same fit returned other draws at step %d; '
+                                     'calls in between: %s' % (prev['k'], calls))
+        asked[key] = dict(state=state, out=r['res'][1] if r['res'][0] == 'ok' else None, real=realy, k=k, pos=len(between))
+        between.append('k=%d sample(%s)' % (k, stp['quantity']))
         line = None
         rec = r['rec']
         if r['res'][0] == 'ok' and r['M'] is not None and len(rec.mvn_calls) == 1 and rec.mvn_calls[0]['u'].shape == (stp['n_draws'], info['m']):
@@ -1326,9 +1458,13 @@ def check_history(ctx, P, only=None):
     ctx.stream(st_, 'histories of sample() calls on one model (same array object with contents changed in place, new objects with equal / '
                     'new contents, X itself as the query, quantities coef / mu / y alternating, interleaved with predict and refits): every '
                     'call returns the pipeline applied to the CURRENT contents and the CURRENT fit — NumPy oracle on the draws of a same-seed '
-                    'twin, and the per-call Lean model `sample` fed the record of the latest fit and the rows at the current contents')
+                    'twin, and the per-call Lean model `sample` fed the record of the latest fit and the rows at the current contents; '
+                    'calls with 2-3 bootstraps are steps too (every history; forced histories on the generic GAM models with estimated '
+                    'scale): the response sampler of later calls gets the scale the model reports, and a repeated request (same seed, '
+                    'contents, fit) returns the same draws')
     nh = 8 if ctx.tier == 'quick' else 120
-    specs = [gen_history(ctx, h) for h in range(nh)] if only is None else [only]
+    nb_ = len(BOOT_LABELS) * (1 if ctx.tier == 'quick' else 6)
+    specs = [gen_history(ctx, h) for h in list(range(nh)) + list(range(BOOT_H0, BOOT_H0 + nb_))] if only is None else [only]
     runs = [(hc, run_history(P, hc)) for hc in specs]
     lines, where = [], []
     for hc, run_ in runs:
@@ -1351,8 +1487,26 @@ def check_history(ctx, P, only=None):
                 ctx.count('history-skipped', r['skipped'])
                 continue
             stp = r['step']
+            if r.get('boot'):
+                sig = dict(label=cfg['label'], mix=cfg['mix'], h=hc['h'], k=r['k'], quantity=stp['quantity'], buf=stp['buf'],
+                           n_bootstraps=stp['n_bootstraps'], n_draws=stp['n_draws'])
+                ctx.case(st_, sig, nontrivial=True)
+                ctx.count('history-bootstraps', '%s: %s' % (cfg['label'], r['status']))
+                if r['problems']:
+                    if confirmed is None:
+                        again = run_history(P, hc)
+                        confirmed = {q['k'] for q in again['records'] if q.get('problems')}
+                    if r['k'] in confirmed and nfail < MAX_FAILS:
+                        nfail += 1
+                        ctx.fail(st_, sig, dict(history=hc, step=r['k']), observed=dict(problems=r['problems']),
+                                 expected=dict(shape='(n_draws, number of coefficients | query rows)'),
+                                 oracle='outputs have shape (n_draws, number of coefficients) or (n_draws, number of query rows), '
+                                        'whatever the number of bootstraps')
+                continue
             sig = dict(label=cfg['label'], mix=cfg['mix'], h=hc['h'], k=r['k'], quantity=stp['quantity'], buf=stp['buf'], mut=stp['mut'],
                        pattern=r['pattern'], n_draws=stp['n_draws'])
+            if stp.get('tag'):
+                ctx.count('history-framed-request', '%s: %s' % (cfg['label'], stp['tag']))
             ctx.case(st_, sig, nontrivial=r['pattern'] != 'first-use', sample=dict(sig=sig) if r['k'] < 2 else None)
             ctx.count('history-pattern', r['pattern'])
             ctx.count('history-quantity', stp['quantity'] + ('@' + stp['buf']))
